@@ -47,7 +47,7 @@ class GammaMessage(AbstractMessage):
 
     @staticmethod
     def calc_natural_parameters(alpha, beta):
-        return np.array([alpha - 1, -beta])
+        return np.array(np.broadcast_arrays(alpha - 1, -beta))
 
     @staticmethod
     def invert_natural_parameters(natural_parameters):
